@@ -264,6 +264,11 @@ func receiveUnaryResponse[T any](conn StreamingClientConn) (*Response[T], error)
 	if err := conn.Receive(new(T)); err == nil {
 		return nil, NewError(CodeUnknown, errors.New("unary stream has multiple messages"))
 	} else if err != nil && !errors.Is(err, io.EOF) {
+		// An error that follows the message - an interceptor's, or the context's -
+		// already has its code.
+		if connectErr, ok := asError(err); ok {
+			return nil, connectErr
+		}
 		return nil, NewError(CodeUnknown, err)
 	}
 	return &Response[T]{
